@@ -1010,6 +1010,18 @@ pub fn run_t1(profile: &T1Profile, tape: Tape, opts: &T1Opts) -> RunOut {
                                 let reader_gone = hist.with(|h| h.streams.get(&x.id).map(|r| r.dirs[1 - side].r_stopped).unwrap_or(false));
                                 if matches!(x.state, 2 | 3 | 4) && !w.end_in && !reader_gone {
                                     let adv_s = e.own_acked.iws as i64 + w.wu_out - w.data_in;
+                                    // C14: the difference is exactly a SETTINGS_INITIAL_WINDOW_SIZE
+                                    // change E has sent and the peer has not acknowledged yet
+                                    let diff = x.recv_window as i64 - adv_s;
+                                    if diff != 0 {
+                                        for pending in e.own_sent.iter() {
+                                            for (k, v) in pending {
+                                                if *k == crate::wire::S_INITIAL_WINDOW_SIZE && *v as i64 - e.own_acked.iws as i64 == diff {
+                                                    cap_violations.push(Violation::new("C14", "local-settings-enforced-before-ack", "", format!("{}: stream {} is accounted with INITIAL_WINDOW_SIZE {} although the peer has only acknowledged {}", who, x.id, v, e.own_acked.iws), exec.step));
+                                                }
+                                            }
+                                        }
+                                    }
                                     if x.recv_window as i64 != adv_s {
                                         cap_violations.push(Violation::new("C03", "stream-window-books-disagree-with-wire", if w.reserved { "pushed" } else { "" }, format!("{}: stream {} (state {}): believes the peer may still send {} but what it advertised is acknowledged INITIAL_WINDOW_SIZE {} + WINDOW_UPDATE {} - DATA {} = {}", who, x.id, x.state, x.recv_window, e.own_acked.iws, w.wu_out, w.data_in, adv_s), exec.step));
                                         break;
